@@ -1,7 +1,7 @@
 HOOKS = dict(guard='ADAPTAGRAMS_VERIF',
              enable='checks compile /repo/cola/lib*/*.cpp into /verif/build/<cfg>/ with -DADAPTAGRAMS_VERIF -DUSE_ASSERT_EXCEPTIONS (harness/Makefile)',
              baseline_off_cmd='make -C /repo/cola -k check',
-             source_commits=[], add_only=True)
+             source_commits=['H1 libvpsc/solve_VPSC.{h,cpp}: IncSolver step events'], add_only=True)
 NOTES = 'See DESIGN.md. bin/check <Cnn> quick|thorough is the single entry point; exit 2 = check broken (never a VIOLATION).'
 
 chk('C16', 'model_checking',
@@ -11,3 +11,18 @@ chk('C16', 'model_checking',
     'transfers symmetry to the code. Exhaustive within the stated grids, which is what the property quantifies over.',
     'Trusts TLC integer arithmetic and the JSON table transport; polygons positively wound.',
     'TLA+ exact-geometry specification; TLC re-derives implementation result tables (records as parallel chunks)', '4/C16')
+
+chk('C01', 'model_checking',
+    'Design level: TLC explores the algorithm-shaped specification of IncSolver (Vpsc.tla: one action per critical section of solve/satisfy/splitBlocks/mostViolated) '
+    'for every instance of the bounded class (n=3, all multisets of <=2 constraints over ordered pairs x gaps -1..2 x {<=,=}, all tie-breaks) and checks '
+    'HoldsOrFlagged, FlagIffInfeasible (positive-cycle oracle), Forest, Tight in every state. Conformance: hook-H1 step traces of the real solver on the same '
+    'TLC-enumerated instances plus seeded re-solve histories are validated line by line against the specification with all invariants evaluated at every step; '
+    'results of IncSolver, the static Solver and libavoid\'s copy (fresh, permuted, live re-solves, scaled, medium n<=12) are judged by the declarative VpscQP.',
+    'Bounds: exhaustive n=3; step traces only for total weight <=7; lattice resolution ~4e-6; the static solver\'s known defects F2/F3 are listed in known-findings.txt.',
+    'TLA+ algorithm spec + declarative QP oracle; TLC BFS/simulation; hook-trace validation; record validation', '4/C01')
+chk('C02', 'model_checking',
+    'Same pipeline as C01 with the optimality invariants: KKT and Optimal (= the best feasible active-set candidate, computed by the specification independently of '
+    'split/merge) on every returned state of the model and of every recorded execution; record level: exact KKT certificate (forest optimum in rationals, multipliers >= 0) '
+    'or exhaustive active-set enumeration, compared with the implementation\'s positions at 1e-5, for permuted/relabelled/scaled/medium instances and live re-solves.',
+    'As C01. F8 (early exit of IncSolver::solve on re-solve) and F3 are known findings.',
+    'TLA+ algorithm spec + declarative QP oracle; TLC BFS/simulation; hook-trace validation; record validation', '4/C02')
